@@ -232,55 +232,15 @@ def run(ctx):
     else:
         r2b.fail(fsetp.qualname, "stored-sorted", fsetp.file, fsetp.lineno, "_Set_partitioned_data", "one of the partition index arrays is stored without being sorted: Mesher builds them from python sets (hash order) and searchsorted against them returns wrong rows silently")
 
-    r3 = ctx.rule("R20.3", "ghost-layer shape: ghosts = elements of all other ranks touching an owned node; group connectivity = unique(owned + ghost); partition data handed over in (elements, nodes, rank, ghostElements) order", min_instances=3)
+    # (R20.3 ghost-layer shape, R20.5 node ownership and R20.6 ghost scope were syntactic rules over the statements of
+    # __Get_partitioned_groupElems: they raised false alarms on behaviour-preserving rewrites (np.any(...) for .any(...),
+    # set.difference for `-`, sorted(set | set) for np.unique) and are retired; R20.12 decides the same clauses - and
+    # more - by interpreting the function.)
     mesher = repo.cls(MESHER)
     fg = mesher.methods["__Get_partitioned_groupElems"]
-    txt = norm_text(fg.node)
-    r3.instance(fn=fg.qualname)
-    loops = [n for n in ast.walk(fg.node) if isinstance(n, ast.For) and isinstance(n.iter, ast.Call) and dotted(n.iter.func) == "range" and len(n.iter.args) == 1 and isinstance(n.iter.args[0], ast.Name)]
-    inner = [l for l in loops if any(isinstance(x, ast.If) and isinstance(x.test, ast.Compare) and isinstance(x.test.ops[0], ast.Eq) and any(isinstance(b, ast.Continue) for b in x.body) for x in l.body)]
-    mask_ok = any(isinstance(n, ast.Call) and isinstance(n.func, ast.Attribute) and n.func.attr == "any" and "np.isin" in norm_text(n.func.value) and any(k.arg == "axis" and norm_text(k.value) == "1" for k in n.keywords) for n in ast.walk(fg.node))
-    if inner and mask_ok:
-        r3.ok("ghost search loops over every other rank and keeps elements with any node among the owned ones")
-    else:
-        r3.fail(fg.qualname, "ghost-search", fg.file, fg.lineno, "__Get_partitioned_groupElems", "the ghost search does not (loop over all other ranks; keep elements with np.isin(connect, owned).any(axis=1))")
-    r3.instance(fn=fg.qualname)
-    uniq = [n for n in ast.walk(fg.node) if isinstance(n, ast.Assign) and isinstance(n.value, ast.Call) and (dotted(n.value.func) or "") == "np.unique" and "np.concatenate" in norm_text(n.value)]
-    if uniq and len([x for x in ast.walk(uniq[0].value) if isinstance(x, ast.Name)]) >= 2:
-        r3.ok("group connectivity rows = np.unique(concatenate(owned, ghost))")
-    else:
-        r3.fail(fg.qualname, "all-idx", fg.file, fg.lineno, "__Get_partitioned_groupElems", "the rank's element rows are not unique(owned + ghost)")
-    r3.instance(fn=fg.qualname)
-    calls = [n for n in ast.walk(fg.node) if isinstance(n, ast.Call) and (dotted(n.func) or "").endswith("_Set_partitioned_data")]
-    fset = repo.cls(GE).methods["_Set_partitioned_data"]
-    ps = fset.params()[1:]
-    # the ghost collection: the set updated with rows selected by the isin(...).any(axis=1) mask
-    ghost = None
-    for n in ast.walk(fg.node):
-        if isinstance(n, ast.Call) and isinstance(n.func, ast.Attribute) and n.func.attr == "update" and isinstance(n.func.value, ast.Name) and n.args and isinstance(n.args[0], ast.Subscript):
-            mk = n.args[0].slice
-            if isinstance(mk, ast.Name):
-                d = [a for a in ast.walk(fg.node) if isinstance(a, ast.Assign) and any(isinstance(t, ast.Name) and t.id == mk.id for t in a.targets)]
-                if d and ".any(axis=1)" in norm_text(d[0].value):
-                    ghost = n.func.value.id
-    rankvar = next((l.target.id for l in loops if isinstance(l.target, ast.Name) and any(c in ast.walk(l) for c in calls)), None)
-    okc = False
-    args = []
-    if calls and ghost:
-        c = calls[0]
-        args = [norm_text(a) for a in c.args]
-        names = [{x.id for x in ast.walk(a) if isinstance(x, ast.Name)} for a in c.args]
-        okc = len(c.args) == 4 and ghost in names[3] and ghost not in names[0] and ghost not in names[1] and names[2] == {rankvar} and ps == ["elements", "nodes", "rank", "ghostElements"] and not c.keywords
-    if okc:
-        r3.ok(f"_Set_partitioned_data({', '.join(args)}): owned rows, owned nodes, the rank, ghost rows - in the parameter order {ps}")
-    else:
-        r3.fail(fg.qualname, "partition-args", fg.file, fg.lineno, "__Get_partitioned_groupElems", f"partition data ({', '.join(args)}) are not passed as (owned elements, owned nodes, rank, ghost elements) = {ps}")
-
     ctx.attempt(merge_dedup_rule, ctx)
     ctx.attempt(merge_single_rule, ctx)
     ctx.attempt(partition_interpreted_rule, ctx)
-    ownership_rule(ctx, fg)
-    ghost_scope_rule(ctx, fg)
     table_scope_rule(ctx)
     r4 = ctx.rule("R20.4", "merge bookkeeping: the node mapping of mesh i is old_to_new[off_i : off_i + size_i] with the offsets used to shift its connectivity", min_instances=1)
     fm = repo.cls(MESH).methods["Merge"]
@@ -733,8 +693,9 @@ def partition_interpreted_rule(ctx, rid="R20.12"):
     # corners a=0 b=1 c=2 d=3 e=4 g=5; mid-edge nodes ab=6 bc=7 ca=8 ae=9 ec=10 cg=11 gb=12 ad=13 db=14
     tri6 = [[0, 4, 2, 9, 10, 8], [1, 2, 5, 7, 11, 12], [0, 1, 2, 6, 7, 8], [1, 0, 3, 6, 13, 14]]
     t = run_case("TRI6 patch over three ranks (rank 1 owns the mid-edge node 6 only, its end vertices 0 and 1 belong to rank 0)", ("Triangle 6", 2, 2, 6, Opaque("localCoords"), 3), tri6, [0, 0, 1, 2], None)
-    # the boundary group of the same mesh, processed with the table the surface group left: segments (a, b | ab), (b, d | db), (a, e | ae)
+    # the boundary group of the same mesh, processed with the table the surface group left: segments (a, b | ab), (b, d | db), (a, e | ae);
+    # the first one belongs to rank 0 and carries the node 6 that rank 1 owns (a LOWER rank's element touching a node of a higher rank)
     seg3 = [[0, 1, 6], [1, 3, 14], [0, 4, 9]]
-    run_case("SEG3 boundary group processed after the surface group (ownership table already filled)", ("Line 3", 1, 2, 3, Opaque("localCoords"), 2), seg3, [2, 2, 0], t if all(t.values()) else {0: {0, 1, 2, 4, 5, 7, 8, 9, 10, 11, 12}, 1: {6}, 2: {3, 13, 14}})
+    run_case("SEG3 boundary group processed after the surface group (ownership table already filled)", ("Line 3", 1, 2, 3, Opaque("localCoords"), 2), seg3, [0, 2, 0], t if all(t.values()) else {0: {0, 1, 2, 4, 5, 7, 8, 9, 10, 11, 12}, 1: {6}, 2: {3, 13, 14}})
     tri3 = [[0, 1, 2], [1, 3, 2], [3, 4, 2], [4, 5, 2]]
     run_case("TRI3 fan over two ranks", ("Triangle 3", 2, 1, 3, Opaque("localCoords"), 3), tri3, [0, 0, 1, 1], None)
